@@ -21,6 +21,7 @@ A case = {"step", "input", "pre": {relpath: text}, "history": [null | {"ops": n,
 """
 import atexit
 import csv
+import hashlib
 import json
 import os
 import random
@@ -205,8 +206,8 @@ class P(Prop):
             files.append(rows)
         return files
 
-    def gen_input(self, rng):
-        step = rng.choice(["merge", "merge", "pin", "pin", "pipe_merge", "pipe_pin"])
+    def gen_input(self, rng, force_step=None, force_pre=None):
+        step = force_step or rng.choice(["merge", "merge", "pin", "pin", "pipe_merge", "pipe_pin"])
         nrows = lambda: rng.choice([0, 1, 2, 3, 4, 5, 7])  # noqa: E731
         if step == "merge":
             ev = [self._gen_evidence(rng, nrows(), i) for i in range(rng.choice([1, 1, 2]))]
@@ -224,6 +225,12 @@ class P(Prop):
         pre = {}
         finals = self.finals(step, inp)
         r = rng.random()
+        if force_pre == "final":
+            r = 0.0
+        elif force_pre == "tmp":
+            r = 0.3
+        elif force_pre == "none":
+            r = 1.0
         if r < 0.2:
             pre[rng.choice(finals)] = rng.choice(["OLD CONTENT\r\n", "", "Sequence\tModified seq"])
         elif r < 0.4:
@@ -340,8 +347,23 @@ class P(Prop):
         extra = sorted(set(os.listdir(ref)) - {o["final"] for o in outs})
         return outs, extra
 
+    @staticmethod
+    def _scratch_parent(case):
+        """half of the cases work in a directory on ANOTHER file system than the system temp directory (when the
+        sandbox has one: /dev/shm), so that a step which prepares its output under $TMPDIR and 'moves' it into place
+        (a copy across file systems) is observed writing under the final name"""
+        try:
+            alt = "/dev/shm"
+            if os.path.isdir(alt) and os.access(alt, os.W_OK) and os.stat(alt).st_dev != os.stat(tempfile.gettempdir()).st_dev:
+                h = hashlib.sha1(json.dumps([case.get("step"), case.get("history")], sort_keys=True, default=str).encode()).digest()[0]
+                if h % 2 == 0:
+                    return alt
+        except OSError:
+            pass
+        return None
+
     def run_impl(self, case):
-        d = tempfile.mkdtemp(prefix="c16_")
+        d = tempfile.mkdtemp(prefix="c16_", dir=self._scratch_parent(case))
         try:
             spec_for = self.materialise(case, d)
             outputs, ref_extra = self.reference(case, d, spec_for)
@@ -401,7 +423,9 @@ class P(Prop):
         run = impl_out["runs"][i]
         if "strace_write" in kill:
             if run["rc"] == 0:
-                return None  # the step issued fewer write(2) calls: it ran through
+                # the step issued fewer write(2) calls than the injection point: it ran through (counted as the feature
+                # `strace_kill_not_reached`; the stage fails as a harness error if NO injected kill ever fires)
+                return None
             kill = {"ops": 0, "flush": False}
         if kill.get("flush", True):
             return {"ops": kill["ops"], "bytes": kill.get("bytes", 0)}
@@ -473,8 +497,8 @@ class P(Prop):
         if not isinstance(impl_out, dict) or "runs" not in impl_out:
             return "no result: %r" % (impl_out,)
         complete = {o["final"]: "".join(o["chunks"]) for o in impl_out["outputs"]}
-        if impl_out.get("ref_extra"):
-            return "the uninterrupted run leaves extra files next to its outputs: %s" % impl_out["ref_extra"]
+        # (files an uninterrupted run leaves next to its outputs are not forbidden by the property; they show up in the
+        #  directory comparison with the model, i.e. as a correspondence difference, not as a failing input)
         pre = impl_out["pre"]
         for i, (kill, run) in enumerate(zip(case["history"], impl_out["runs"])):
             where = f"invocation {i} ({'complete' if kill is None else 'killed at ' + json.dumps(kill)})"
@@ -508,8 +532,10 @@ class P(Prop):
                     return f"{where}: pre-existing output {p} was rewritten (mtime / inode changed)"
             for e in self._trace(run["log"]):
                 named = [x for x in e[1:3] if isinstance(x, str) and x in complete]
-                if named and not (e[0] == "rename" and e[2] in complete and e[1] == e[2] + ".tmp"):
-                    return f"{where}: operation {e[:3] if e[0] != 'write' else e[:2]} names the final path {named[0]} (only rename(tmp, final) may)"
+                # the property does not fix the temporary name: any rename(x, final) with x not itself a final path may
+                # name the final path (the model's `.tmp` name is compared by the trace correspondence, not here)
+                if named and not (e[0] == "rename" and e[2] in complete and e[1] not in complete):
+                    return f"{where}: operation {e[:3] if e[0] != 'write' else e[:2]} names the final path {named[0]} (only rename(temporary, final) may)"
         return None
 
     # ------------------------------------------------------------------ bookkeeping
@@ -536,6 +562,10 @@ class P(Prop):
             f.append("kill_without_flush")
         if any("strace_write" in k for k in kills):
             f.append("kill_by_SIGKILL_at_write_syscall")
+            if isinstance(impl_out, dict) and any(
+                "strace_write" in (k or {}) and r.get("rc") not in (0, None) for k, r in zip(case["history"], impl_out.get("runs", []))
+            ):
+                f.append("sigkill_fired")
         if isinstance(impl_out, dict) and "outputs" in impl_out:
             n = max((len(o["chunks"]) for o in impl_out["outputs"]), default=0)
             f.append("max_rows=%s" % (n if n < 6 else "6+"))
@@ -614,7 +644,14 @@ class P(Prop):
         lib.setup_impl_path()
         for i in range(n_inputs):
             rng = random.Random(f"C16-extra-{seed}-{i}")
-            base = self.gen_input(rng)
+            # the first inputs of every run follow fixed profiles, so that every step kind, a pre-existing final output
+            # and a stale temporary file are killed at every seed (the rest is drawn)
+            profiles = [("merge", "none"), ("pin", "none"), ("pipe_merge", "final"), ("pipe_pin", "final"),
+                        ("merge", "tmp"), ("pipe_pin", "none"), ("pin", "final")]
+            if i < len(profiles):
+                base = self.gen_input(rng, force_step=profiles[i][0], force_pre=profiles[i][1])
+            else:
+                base = self.gen_input(rng)
             d = tempfile.mkdtemp(prefix="c16x_")
             try:
                 outputs, _ = self.reference(base, d, self.materialise(base, d))
@@ -656,6 +693,9 @@ class P(Prop):
                 if r["oracle"] is not None or r["disagree"] is not None:
                     failures.append({"case": r["case"], "why": r["oracle"], "impl": None, "disagree": r["disagree"]})
         info["histogram"] = dict(sorted(feats.items()))
+        if feats.get("kill_by_SIGKILL_at_write_syscall", 0) > 0 and feats.get("sigkill_fired", 0) == 0:
+            # ptrace forbidden / strace injection not working: every such case would pass vacuously
+            raise RuntimeError("strace fault injection never fired (SIGKILL at write(2)); the syscall-level kill points were not exercised")
         evaluations = len(cases)
         if tier == "thorough":
             st = self.strace_stage(seed, 24)
